@@ -138,51 +138,63 @@ def run(facts, R):
             R.bad("evict-discipline", w["body"].path, "capacity is fixed", "ReplayRing.capacity_bytes is written outside ReplayRing::new", w.get("span"))
 
     # ---------- resume-gate ----------------------------------------------------------------------
-    rr = facts.body(TC + "::request_resume")
-    sym = Sym(rr)
-    targets = []
-    for w in field_writes(facts, INNER, "peer") + field_writes(facts, INNER, "pending_resume"):
-        if w["body"] is rr:
-            targets.append((w["bb"], w["idx"], "store:" + ("peer" if "peer" in str(w) and False else ""), w))
-    gate_sites = [(w["bb"], w["span"], w) for w in field_writes(facts, INNER, "peer") if w["body"] is rr]
-    gate_sites += [(w["bb"], w["span"], w) for w in field_writes(facts, INNER, "pending_resume") if w["body"] is rr]
-    oks = blocks_assigning_variant(rr, "std::result::Result", "Ok")
-    R.floor("resume-gate", len(gate_sites), 2, "peer/pending_resume stores in request_resume")
-    R.floor("resume-gate", len(oks), 1, "Ok exits of request_resume")
-    offset_arg = None
-    for bb, span, w in gate_sites + [(i, s.get("span"), None) for i, j, s in oks]:
-        fs = facts_at(rr, sym, facts, bb)
-        what = "Ok-return" if w is None else "store"
-        not_cancelled = option_fact(fs, lambda e: _is_f(e, "cancelled"), "None")
-        cur = has_cmp(fs, "Eq", lambda a: _is_f(a, "current_file_index"), lambda x: x[0] == "arg")
-        cov = None
-        for f in fs:
-            e = f["expr"]
-            if f["val"] is True and is_call(e, RING + "::covers") and _is_f(e[2][0], "replay"):
-                cov = e[2][1]
-        R.check(not_cancelled and cur and cov is not None, "resume-gate", rr.path, what + "-guards",
-                "resume accepted without {not cancelled: %s, file_index == current: %s, replay.covers(offset): %s}; guards: %s"
-                % (not_cancelled, cur, cov is not None, texts(fs)), span, "guarded by !cancelled, current file, covers(offset)")
-        if cov is not None:
-            offset_arg = cov
-    if offset_arg is not None:
-        for w in field_writes(facts, INNER, "pending_resume"):
-            if w["body"] is rr and w["kind"] == "store":
-                v = sym.rvalue(w["rv"])
-                txt = render(v)
-                ok = v[0] == "agg" and v[2] == "Some" and any(
-                    x[0] == "agg" and x[1].endswith("PendingResume") and dict(x[3]).get("resume_at_offset") == offset_arg for x in walk(v))
-                if not ok and getattr(rr, "changed", False):
-                    # the validated offset may come back from the validating half through `Ok(offset)?`: by reaching definitions
-                    from analysis.sym import split_rows as _sr
-                    alts_ = _sr(sym, w["bb"], w["idx"], w["rv"]) or []
-                    ok = bool(alts_) and all(v_[0] == "agg" and v_[2] == "Some" and any(
-                        x[0] == "agg" and x[1].endswith("PendingResume") and dict(x[3]).get("resume_at_offset") == offset_arg for x in walk(v_)) for _, v_ in alts_)
-                    if ok:
-                        v = alts_[0][1]
-                        txt = render(v)
-                R.check(ok, "resume-gate", rr.path, "staged-offset",
-                        "pending_resume is staged as %s, not the offset validated by covers(%s)" % (txt, render(offset_arg)), w["span"], txt)
+    # (closed over every function that stages a resume - stores Some(..) into pending_resume - whenever it was added: a sibling such as
+    # `request_resume_with_tail` owes the same gate)
+    facts.body(TC + "::request_resume")
+    stagers = [TC + "::request_resume"]
+    for w_ in field_writes(facts, INNER, "pending_resume"):
+        if w_["kind"] == "store" and w_["body"].path not in stagers:
+            v_ = Sym(w_["body"]).rvalue(w_["rv"])
+            if v_[0] == "agg" and v_[2] == "Some":
+                stagers.append(w_["body"].path)
+                R.note("derived resume function (judged like request_resume): " + w_["body"].path)
+    for rr_path in stagers:
+      rr = facts.body(rr_path)
+      sym = Sym(rr)
+      targets = []
+      for w in field_writes(facts, INNER, "peer") + field_writes(facts, INNER, "pending_resume"):
+          if w["body"] is rr:
+              targets.append((w["bb"], w["idx"], "store:" + ("peer" if "peer" in str(w) and False else ""), w))
+      gate_sites = [(w["bb"], w["span"], w) for w in field_writes(facts, INNER, "peer") if w["body"] is rr]
+      gate_sites += [(w["bb"], w["span"], w) for w in field_writes(facts, INNER, "pending_resume") if w["body"] is rr]
+      oks = blocks_assigning_variant(rr, "std::result::Result", "Ok")
+      if rr_path == TC + "::request_resume":
+          R.floor("resume-gate", len(gate_sites), 2, "peer/pending_resume stores in request_resume")
+          R.floor("resume-gate", len(oks), 1, "Ok exits of request_resume")
+      offset_arg = None
+      for bb, span, w in gate_sites + [(i, s.get("span"), None) for i, j, s in oks]:
+          fs = facts_at(rr, sym, facts, bb)
+          what = "Ok-return" if w is None else "store"
+          not_cancelled = option_fact(fs, lambda e: _is_f(e, "cancelled"), "None")
+          cur = has_cmp(fs, "Eq", lambda a: _is_f(a, "current_file_index"), lambda x: x[0] == "arg")
+          cov = None
+          for f in fs:
+              e = f["expr"]
+              if f["val"] is True and is_call(e, RING + "::covers") and _is_f(e[2][0], "replay"):
+                  cov = e[2][1]
+          R.check(not_cancelled and cur and cov is not None, "resume-gate", rr.path, what + "-guards",
+                  "resume accepted without {not cancelled: %s, file_index == current: %s, replay.covers(offset): %s}; guards: %s"
+                  % (not_cancelled, cur, cov is not None, texts(fs)), span, "guarded by !cancelled, current file, covers(offset)")
+          if cov is not None:
+              offset_arg = cov
+      if offset_arg is not None:
+          for w in field_writes(facts, INNER, "pending_resume"):
+              if w["body"] is rr and w["kind"] == "store":
+                  v = sym.rvalue(w["rv"])
+                  txt = render(v)
+                  ok = v[0] == "agg" and v[2] == "Some" and any(
+                      x[0] == "agg" and x[1].endswith("PendingResume") and dict(x[3]).get("resume_at_offset") == offset_arg for x in walk(v))
+                  if not ok and getattr(rr, "changed", False):
+                      # the validated offset may come back from the validating half through `Ok(offset)?`: by reaching definitions
+                      from analysis.sym import split_rows as _sr
+                      alts_ = _sr(sym, w["bb"], w["idx"], w["rv"]) or []
+                      ok = bool(alts_) and all(v_[0] == "agg" and v_[2] == "Some" and any(
+                          x[0] == "agg" and x[1].endswith("PendingResume") and dict(x[3]).get("resume_at_offset") == offset_arg for x in walk(v_)) for _, v_ in alts_)
+                      if ok:
+                          v = alts_[0][1]
+                          txt = render(v)
+                  R.check(ok, "resume-gate", rr.path, "staged-offset",
+                          "pending_resume is staged as %s, not the offset validated by covers(%s)" % (txt, render(offset_arg)), w["span"], txt)
 
     # ---------- covers-table ---------------------------------------------------------------------
     cv = facts.body(RING + "::covers")
